@@ -155,4 +155,35 @@ def run(
         results = InternalSemgrepResultSet.from_sarif(
             temp_sarif_file.name, truncate_rule_id=True
         )
+        _byte_columns_to_character_columns(results)
         return results
+
+
+def _byte_columns_to_character_columns(results: ResultSet) -> None:
+    """
+    Semgrep counts columns in bytes, libcst in characters: on a line with
+    non-ASCII text before the match the two differ and the location would not
+    match its node. Convert the columns using the content of the scanned files.
+    """
+    lines_by_file: dict[Path, list[bytes]] = {}
+
+    def convert(file: Path, info: LineInfo) -> None:
+        if file not in lines_by_file:
+            try:
+                lines_by_file[file] = file.read_bytes().split(b"\n")
+            except OSError:
+                lines_by_file[file] = []
+        lines = lines_by_file[file]
+        if 0 < info.line <= len(lines) and info.column > 0:
+            prefix = lines[info.line - 1][: info.column - 1]
+            info.column = len(prefix.decode("utf-8", errors="replace")) + 1
+
+    converted: set[int] = set()
+    for results_by_file in results.values():
+        for result_list in results_by_file.values():
+            for result in result_list:
+                for location in result.locations:
+                    if id(location) not in converted:
+                        converted.add(id(location))
+                        convert(location.file, location.start)
+                        convert(location.file, location.end)
